@@ -202,14 +202,254 @@ theorem junk_free {α : Type} [LT α] [DecidableLT α] (lowest : α) (D : PoolDi
 
 end MaxPool
 
-/-- The dimension hypotheses above (`StrideOK`, volume = product of the dims, `yShift = yc·yw·yh`) follow from
-the front-end guards (`devBinFw`, `devMatmulFw`, `devConv2dFw`, `devMaxPoolFw` and the `guardBwAB` forms) for
-every Shape obtainable from the constructor; stated for matmul, not proved (needs the Shape invariants of C09). -/
-def front_end_guard_full : Prop :=
-  ∀ (a b ys : Shape), (∃ da ba, Shape.new da ba = .ok a) → (∃ db bb, Shape.new db bb = .ok b) →
-    ShapeOps.matmul a b = .ok ys →
+/-! ### the front-end guards of device.cc establish the hypotheses used above
+
+For canonical operand shapes (every Shape the constructor returns is canonical, Props/C09 `new_canonical`) the
+shape rule a `Device` entry point evaluates before it calls the kernel (`devBinFw`, `devScalarFw`,
+`devMatmulFw`, `devConv2dFw`, `devMaxPoolFw`; the `*_bw` entry points via `guardBwAB`; `guardInplace`) yields
+exactly the stride / volume facts the bounds theorems assume, with the tensors' true element counts
+`size = batch · volume`. -/
+namespace FrontEnd
+open Primitiv.Arith.Guard Primitiv.Spec Primitiv.ShapeL
+
+theorem stride_of_compat {s : Shape} (h : s.Canonical) (size bs : Nat) (hb : bs = s.batch ∨ s.batch = 1) :
+    StrideOK (skipOf s size) size bs s.batch := skipOf_ok h size bs hb
+
+/-- shape_ops::elementwise (add, subtract, multiply, divide, pow — forward, and backward via `guardBwAB`) -/
+theorem elementwise_guard {a b ys : Shape} (ha : a.Canonical) (hb : b.Canonical)
+    (h : ShapeOps.elementwise a b = .ok ys) :
+    ys.Canonical ∧ ys.volume = a.volume ∧ b.volume = a.volume ∧
+      StrideOK (skipOf a ys.volume) ys.volume ys.batch a.batch ∧
+      StrideOK (skipOf b ys.volume) ys.volume ys.batch b.batch := by
+  have ag := ShapeOps.elementwise_agree ha hb
+  rw [h] at ag
+  obtain ⟨t, ht, hts, hc⟩ := agree_ok_inv ag
+  subst hts
+  unfold Spec.elementwise at ht
+  split at ht
+  · simp at ht
+  · next hneg =>
+    obtain ⟨hd, hbt⟩ := of_mk ht
+    simp only [not_or, ne_eq, Decidable.not_not, toSpec_dims, Bool.not_eq_true'] at hneg
+    obtain ⟨hdims, hcompat⟩ := hneg
+    simp only [Spec.compatibleBatch, toSpec_batch] at hcompat hbt
+    have hm := compat_max ha.batch_ne hb.batch_ne (Bool.eq_true_of_not_eq_false hcompat)
+    have hv : ys.volume = a.volume := by rw [hc.vol, ha.vol, hd, toSpec_dims, ha.trimmed]
+    have hvb : b.volume = a.volume := by rw [hb.vol, ha.vol, hdims]
+    refine ⟨hc, hv, hvb, stride_of_compat ha _ _ ?_, stride_of_compat hb _ _ ?_⟩
+    · rw [hbt]; exact hm.1
+    · rw [hbt]; exact hm.2
+example : (⟨[2, 3], 5, 6⟩ : Shape).Canonical := by decide
+
+/-- every address of a broadcasting binary kernel is below the element count of the tensor it addresses -/
+theorem devBin_in_bounds {a b ys : Shape} (ha : a.Canonical) (hb : b.Canonical)
+    (h : ShapeOps.elementwise a b = .ok ys) :
+    ∀ t ∈ range2 ys.batch ys.volume,
+      t.1 * skipOf a ys.volume + t.2 < a.size ∧ t.1 * skipOf b ys.volume + t.2 < b.size ∧
+        t.1 * ys.volume + t.2 < ys.size := by
+  obtain ⟨hc, hv, hvb, sa, sb⟩ := elementwise_guard ha hb h
+  intro t ht
+  rw [canon_size ha, canon_size hb, canon_size hc, ← hv, hvb, ← hv]
+  exact ⟨addr_lt sa t ht, addr_lt sb t ht, idx_lt (mem_range2.mp ht).1 (mem_range2.mp ht).2⟩
+
+/-- shape_ops::scalar_op (the eight `*_scalar_*` kernels): `k` is a scalar, read at `b · has_batch` -/
+theorem scalarOp_guard {x k ys : Shape} (hx : x.Canonical) (hk : k.Canonical)
+    (h : ShapeOps.scalarOp x k = .ok ys) :
+    ys.Canonical ∧ ys.volume = x.volume ∧ k.volume = 1 ∧
+      StrideOK (skipOf x ys.volume) ys.volume ys.batch x.batch ∧ StrideOK (skipOf k 1) 1 ys.batch k.batch := by
+  have ag := ShapeOps.scalarOp_agree hx hk
+  rw [h] at ag
+  obtain ⟨t, ht, hts, hc⟩ := agree_ok_inv ag
+  subst hts
+  unfold Spec.scalarOp at ht
+  split at ht
+  · simp at ht
+  · next hneg =>
+    obtain ⟨hd, hbt⟩ := of_mk ht
+    simp only [not_or, ne_eq, Decidable.not_not, toSpec_depth, Bool.not_eq_true'] at hneg
+    obtain ⟨hdepth, hcompat⟩ := hneg
+    simp only [Spec.compatibleBatch, toSpec_batch] at hcompat hbt
+    have hm := compat_max hx.batch_ne hk.batch_ne (Bool.eq_true_of_not_eq_false hcompat)
+    have hv : ys.volume = x.volume := by rw [hc.vol, hx.vol, hd, toSpec_dims, hx.trimmed]
+    refine ⟨hc, hv, canon_vol0 hk hdepth, stride_of_compat hx _ _ ?_, stride_of_compat hk _ _ ?_⟩
+    · rw [hbt]; exact hm.1
+    · rw [hbt]; exact hm.2
+
+/-- shape_ops::matmul -/
+theorem matmul_guard {a b ys : Shape} (ha : a.Canonical) (hb : b.Canonical) (h : ShapeOps.matmul a b = .ok ys) :
     let D := matDims a b ys
-    StrideOK D.skipA (D.d2 * D.d1) D.bs a.batch ∧ StrideOK D.skipB (D.d3 * D.d2) D.bs b.batch ∧
-      a.volume = D.d2 * D.d1 ∧ b.volume = D.d3 * D.d2 ∧ ys.volume = D.d3 * D.d1
+    ys.Canonical ∧ StrideOK D.skipA (D.d2 * D.d1) D.bs a.batch ∧ StrideOK D.skipB (D.d3 * D.d2) D.bs b.batch ∧
+      a.volume = D.d2 * D.d1 ∧ b.volume = D.d3 * D.d2 ∧ ys.volume = D.d3 * D.d1 := by
+  have ag := ShapeOps.matmul_agree ha hb
+  rw [h] at ag
+  obtain ⟨t, ht, hts, hc⟩ := agree_ok_inv ag
+  subst hts
+  unfold Spec.matmul at ht
+  split at ht
+  · simp at ht
+  · next hneg =>
+    obtain ⟨hd, hbt⟩ := of_mk ht
+    simp only [not_or, ne_eq, Decidable.not_not, toSpec_depth, toSpec_dimAt, Bool.not_eq_true',
+      Nat.not_lt] at hneg
+    obtain ⟨hda, hdb, hmid, hcompat⟩ := hneg
+    simp only [Spec.compatibleBatch, toSpec_batch, toSpec_dimAt] at hcompat hbt hd
+    have hm := compat_max ha.batch_ne hb.batch_ne (Bool.eq_true_of_not_eq_false hcompat)
+    have hva : a.volume = a.get 1 * a.get 0 := canon_vol2 ha hda
+    have hvb : b.volume = b.get 1 * b.get 0 := canon_vol2 hb hdb
+    have hlen : ys.dims.length ≤ 2 := by
+      rw [hd]; exact Nat.le_trans (length_trim_le _) (by simp)
+    have hg0 : ys.get 0 = a.get 0 := by unfold Shape.get; rw [hd, getD_trim]; rfl
+    have hg1 : ys.get 1 = b.get 1 := by unfold Shape.get; rw [hd, getD_trim]; rfl
+    have hvy : ys.volume = b.get 1 * a.get 0 := by rw [canon_vol2 hc hlen, hg0, hg1]
+    intro D
+    refine ⟨hc, ?_, ?_, hva, ?_, hvy⟩
+    · show StrideOK (skipOf a (a.get 0 * a.get 1)) (a.get 1 * a.get 0) ys.batch a.batch
+      rw [Nat.mul_comm (a.get 0)]
+      exact stride_of_compat ha _ _ (by rw [hbt]; exact hm.1)
+    · show StrideOK (skipOf b (a.get 1 * b.get 1)) (b.get 1 * a.get 1) ys.batch b.batch
+      rw [Nat.mul_comm (a.get 1)]
+      exact stride_of_compat hb _ _ (by rw [hbt]; exact hm.2)
+    · show b.volume = b.get 1 * a.get 1
+      rw [hvb, hmid]
+
+/-- Device::matmul_fw / matmul_bw: the loop nest stays inside the three tensors -/
+theorem devMatmul_in_bounds {a b ys : Shape} (ha : a.Canonical) (hb : b.Canonical)
+    (h : ShapeOps.matmul a b = .ok ys) :
+    C01.Arith.Matmul.InBounds (matDims a b ys) a.size b.size ∧
+      (matDims a b ys).bs * ((matDims a b ys).d3 * (matDims a b ys).d1) = ys.size := by
+  obtain ⟨hc, sa, sb, hva, hvb, hvy⟩ := matmul_guard ha hb h
+  rw [canon_size ha, canon_size hb, canon_size hc, hva, hvb, hvy]
+  exact ⟨Matmul.in_bounds _ _ _ sa sb, rfl⟩
+
+/-- shape_ops::conv2d -/
+theorem conv2d_guard {x w ys : Shape} (hx : x.Canonical) (hw : w.Canonical) (p0 p1 s0 s1 d0 d1 : Nat)
+    (h : ShapeOps.conv2d x w p0 p1 s0 s1 d0 d1 = .ok ys) :
+    let D := convDims x w ys p0 p1 s0 s1 d0 d1
+    ys.Canonical ∧ StrideOK D.xShift (D.xc * (D.xw * D.xh)) D.bs x.batch ∧
+      StrideOK D.wShift (D.yc * (D.xc * (D.ww * D.wh))) D.bs w.batch ∧ D.yShift = D.yc * (D.yw * D.yh) ∧
+      x.volume = D.xc * (D.xw * D.xh) ∧ w.volume = D.yc * (D.xc * (D.ww * D.wh)) := by
+  have ag := ShapeOps.conv2d_agree hx hw p0 p1 s0 s1 d0 d1
+  rw [h] at ag
+  obtain ⟨t, ht, hts, hc⟩ := agree_ok_inv ag
+  subst hts
+  unfold Spec.conv2d at ht
+  simp only [] at ht
+  split at ht
+  · simp at ht
+  · next hneg =>
+    split at ht
+    · simp at ht
+    · obtain ⟨hd, hbt⟩ := of_mk ht
+      simp only [not_or, ne_eq, Decidable.not_not, toSpec_depth, toSpec_dimAt, Bool.not_eq_true',
+        Nat.not_lt] at hneg
+      obtain ⟨hdx, hdw, _, _, hch, hcompat, _⟩ := hneg
+      simp only [Spec.compatibleBatch, toSpec_batch, toSpec_dimAt] at hcompat hbt hd
+      have hm := compat_max hx.batch_ne hw.batch_ne (Bool.eq_true_of_not_eq_false hcompat)
+      have hvx : x.volume = x.get 2 * (x.get 1 * x.get 0) := canon_vol3 hx hdx
+      have hvw : w.volume = w.get 3 * (w.get 2 * (w.get 1 * w.get 0)) := canon_vol4 hw hdw
+      have hlen : ys.dims.length ≤ 3 := by
+        rw [hd]; exact Nat.le_trans (length_trim_le _) (by simp)
+      have hg2 : ys.get 2 = w.get 3 := by unfold Shape.get; rw [hd, getD_trim]; rfl
+      intro D
+      refine ⟨hc, ?_, ?_, canon_vol3 hc hlen, hvx, ?_⟩
+      · show StrideOK (skipOf x x.volume) (x.get 2 * (x.get 1 * x.get 0)) ys.batch x.batch
+        rw [← hvx]
+        exact stride_of_compat hx _ _ (by rw [hbt]; exact hm.1)
+      · show StrideOK (skipOf w w.volume) (ys.get 2 * (x.get 2 * (w.get 1 * w.get 0))) ys.batch w.batch
+        rw [hg2, hch, ← hvw]
+        exact stride_of_compat hw _ _ (by rw [hbt]; exact hm.2)
+      · show w.volume = ys.get 2 * (x.get 2 * (w.get 1 * w.get 0))
+        rw [hg2, hch, hvw]
+
+/-- Device::conv2d_fw / conv2d_bw: every read and write of the seven-level nest is inside its tensor and the
+zero-writes cover the result -/
+theorem devConv2d_in_bounds {x w ys : Shape} (hx : x.Canonical) (hw : w.Canonical) (p0 p1 s0 s1 d0 d1 : Nat)
+    (h : ShapeOps.conv2d x w p0 p1 s0 s1 d0 d1 = .ok ys) :
+    C01.Arith.Conv2d.InBounds (convDims x w ys p0 p1 s0 s1 d0 d1) x.size w.size ∧
+      (convDims x w ys p0 p1 s0 s1 d0 d1).outer.map (C02.Arith.convCell (convDims x w ys p0 p1 s0 s1 d0 d1))
+        = List.range ys.size := by
+  obtain ⟨hc, sx, sw, hY, hvx, hvw⟩ := conv2d_guard hx hw p0 p1 s0 s1 d0 d1 h
+  rw [canon_size hx, canon_size hw, canon_size hc, hvx, hvw]
+  exact ⟨Conv2d.in_bounds _ _ _ sx sw hY, Conv2d.writes_all _ hY⟩
+
+/-- shape_ops::pool2d: `repeat = x.size() / (x_height · x_width)` planes on both sides -/
+theorem pool2d_guard {x ys : Shape} (hx : x.Canonical) (w0 w1 p0 p1 s0 s1 : Nat)
+    (h : ShapeOps.pool2d x w0 w1 p0 p1 s0 s1 = .ok ys) :
+    let D := poolDims x ys w0 w1 p0 p1 s0 s1
+    ys.Canonical ∧ D.rep * (D.xh * D.xw) = x.size ∧ D.rep * (D.yw * D.yh) = ys.size := by
+  have ag := ShapeOps.pool2d_agree hx w0 w1 p0 p1 s0 s1
+  rw [h] at ag
+  obtain ⟨t, ht, hts, hc⟩ := agree_ok_inv ag
+  subst hts
+  unfold Spec.pool2d at ht
+  simp only [] at ht
+  split at ht
+  · simp at ht
+  · next hneg =>
+    split at ht
+    · simp at ht
+    · obtain ⟨hd, hbt⟩ := of_mk ht
+      simp only [not_or, toSpec_depth, toSpec_dimAt, Nat.not_lt] at hneg
+      obtain ⟨hdx, _⟩ := hneg
+      simp only [toSpec_batch, toSpec_dimAt] at hbt hd
+      have hvx : x.volume = x.get 2 * (x.get 1 * x.get 0) := canon_vol3 hx hdx
+      have hlen : ys.dims.length ≤ 3 := by
+        rw [hd]; exact Nat.le_trans (length_trim_le _) (by simp)
+      have hg2 : ys.get 2 = x.get 2 := by unfold Shape.get; rw [hd, getD_trim]; rfl
+      have hvy : ys.volume = x.get 2 * (ys.get 1 * ys.get 0) := by rw [canon_vol3 hc hlen, hg2]
+      have hpos : 0 < x.get 0 * x.get 1 := Nat.mul_pos (hx.get_pos 0) (hx.get_pos 1)
+      have hrep : x.size / (x.get 0 * x.get 1) = x.batch * x.get 2 := by
+        rw [canon_size hx, hvx]
+        have : x.batch * (x.get 2 * (x.get 1 * x.get 0)) = (x.batch * x.get 2) * (x.get 0 * x.get 1) := by ring
+        rw [this, Nat.mul_div_cancel _ hpos]
+      intro D
+      refine ⟨hc, ?_, ?_⟩
+      · show x.size / (x.get 0 * x.get 1) * (x.get 0 * x.get 1) = x.size
+        rw [hrep, canon_size hx, hvx]; ring
+      · show x.size / (x.get 0 * x.get 1) * (ys.get 1 * ys.get 0) = ys.size
+        rw [hrep, canon_size hc, hvy, hbt]; ring
+
+/-- Device::max_pool2d_fw / max_pool2d_bw: reads of `x` (writes of `gx`) inside x, the result fully written -/
+theorem devMaxPool_in_bounds {x ys : Shape} (hx : x.Canonical) (w0 w1 p0 p1 s0 s1 : Nat)
+    (h : ShapeOps.pool2d x w0 w1 p0 p1 s0 s1 = .ok ys) :
+    (∀ t ∈ (poolDims x ys w0 w1 p0 p1 s0 s1).outer, ∀ a ∈ (poolDims x ys w0 w1 p0 p1 s0 s1).window t.2.1 t.2.2,
+        (poolDims x ys w0 w1 p0 p1 s0 s1).xbase t + a < x.size) ∧
+      (poolDims x ys w0 w1 p0 p1 s0 s1).outer.map (poolDims x ys w0 w1 p0 p1 s0 s1).ya = List.range ys.size := by
+  obtain ⟨_, h1, h2⟩ := pool2d_guard hx w0 w1 p0 p1 s0 s1 h
+  rw [← h1, ← h2]
+  exact ⟨fun t ht a ha => MaxPool.reads_in_bounds _ ht a ha, MaxPool.writes_all _⟩
+
+/-- the guard of every binary `*_bw` entry point (DEV_BW_AB, conv2d_bw): the accumulators and `gy` have the
+shapes of the operands and of the forward result, so the facts above hold for them as well -/
+theorem guardBwAB_ok {sop : Shape → Shape → R Shape} {a b y gy ga gb : Shape}
+    (h : guardBwAB sop a b y gy ga gb = .ok ()) :
+    a.eq ga = true ∧ b.eq gb = true ∧ y.eq gy = true ∧ ∃ ys, sop a b = .ok ys ∧ y.eq ys = true := by
+  unfold guardBwAB at h
+  by_cases h1 : (!a.eq ga || !b.eq gb || !y.eq gy) = true
+  · simp [h1, Primitiv.throwError, bind, Except.bind] at h
+  · simp only [h1] at h
+    simp only [Bool.or_eq_true, Bool.not_eq_true', not_or, Bool.not_eq_false] at h1
+    obtain ⟨⟨ha, hb⟩, hy⟩ := h1
+    cases hs : sop a b with
+    | error e => simp [hs, bind, Except.bind] at h
+    | ok ys =>
+      refine ⟨ha, hb, hy, ys, rfl, ?_⟩
+      by_cases h2 : (!y.eq ys) = true
+      · simp [hs, h2, Primitiv.throwError, bind, Except.bind] at h
+      · simpa using h2
+
+/-- Device::inplace_add / inplace_subtract -/
+theorem inplace_guard {sx sy : Shape} (hx : sx.Canonical) (hy : sy.Canonical) (h : guardInplace sx sy = true) :
+    sx.volume = sy.volume ∧
+      StrideOK (skipOf sy sy.volume) sy.volume (max sx.batch sy.batch) sy.batch ∧
+      StrideOK (skipOf sx sy.volume) sy.volume (max sx.batch sy.batch) sx.batch := by
+  unfold guardInplace at h
+  rw [Bool.and_eq_true, hasSameDims_iff] at h
+  obtain ⟨hd, hcompat⟩ := h
+  unfold Shape.hasCompatibleBatch at hcompat
+  have hm := compat_max hx.batch_ne hy.batch_ne hcompat
+  exact ⟨by rw [hx.vol, hy.vol, hd], stride_of_compat hy _ _ hm.2, stride_of_compat hx _ _ hm.1⟩
+
+end FrontEnd
 
 end Primitiv.C11.Arith
